@@ -393,13 +393,328 @@ def c06_cancelled_waiter_ends_at_once():
     return _run(sc)
 
 
+# ------------------------------------------------------------------------------------------------- buffer
+def c03_foreign_thread_submission_reaches_an_idle_loop():
+    """C03: arguments submitted from another thread while the buffer's loop sits idle in its selector (no timer
+    pending) are delivered -- the hand-over must WAKE the loop."""
+    import time
+    from aiuti.asyncio import BufferAsyncCalls, loop_in_thread
+    got = []
+    seen = threading.Event()
+
+    async def func(args):
+        got.append(set(args))
+        seen.set()
+    l1 = aio.new_event_loop()
+    aio.set_event_loop(l1)
+    try:
+        buf = BufferAsyncCalls(func, timeout=0.05)
+    finally:
+        aio.set_event_loop(None)
+    stop = loop_in_thread(l1)
+    out = []
+    try:
+        time.sleep(0.3)                 # the daemon task is now parked in `await q.get()`, the loop in select(None)
+        for flavour in ('call', 'map'):
+            seen.clear()
+            del got[:]
+            if flavour == 'call':
+                buf(1)
+            else:
+                buf.map([2, 3])
+            if not seen.wait(4):
+                out.append('C03: %s from another thread while the loop was idle: nothing was delivered within 4 s '
+                           '(buffer timeout 0.05 s); the hand-over did not wake the loop' % flavour)
+                break
+    finally:
+        l1.call_soon_threadsafe(lambda: None)
+        stop()
+        for t in aio.all_tasks(l1):
+            t.cancel()
+        try:
+            l1.run_until_complete(aio.sleep(0))
+        except BaseException:  # noqa
+            pass
+        l1.close()
+    return out
+
+
+def c08_wait_from_anywhere_without_flush():
+    """C08: wait_from_anywhere(cancel=False) is not a flush request: the burst still goes out in ONE call,
+    timeout after its last submission."""
+    from aiuti.asyncio import BufferAsyncCalls
+
+    async def sc():
+        loop = aio.get_running_loop()
+        calls = []
+
+        async def func(args):
+            calls.append((round(loop.time(), 3), set(args)))
+        buf = BufferAsyncCalls(func, timeout=1)
+        buf(1)
+        await aio.sleep(0.2)
+        buf(2)
+        await aio.sleep(0.1)
+        w = aio.ensure_future(buf.wait_from_anywhere(cancel=False))
+        await aio.sleep(0.3)
+        buf(3)
+        await aio.wait_for(w, 50)
+        out = []
+        if calls != [(1.6, {1, 2, 3})]:
+            out.append('C08: submissions at t=0, 0.2, 0.6 (timeout 1) with a wait_from_anywhere(cancel=False) from t=0.3: '
+                       'calls %r, expected one call {1, 2, 3} at t=1.6' % (calls,))
+        return out
+    return _run(sc)
+
+
+# ------------------------------------------------------------------------------------------------- batcher
+def _mk_batchfn(log, loop, dur=0.0, gate=None, active=None):
+    async def fn(batch):
+        batch = list(batch)
+        log.append((round(loop.time(), 3), [k for k, _ in batch]))
+        if active is not None:
+            active[0] += 1
+            active[1] = max(active[1], active[0])
+        try:
+            if gate is not None:
+                await gate.wait()
+            if dur:
+                await aio.sleep(dur)
+            for k, a in batch:
+                yield k, ('result', k, a, len(log))
+        finally:
+            if active is not None:
+                active[0] -= 1
+    return fn
+
+
+def c04_burst_with_a_cancelled_caller():
+    """C04: a burst larger than max_batch_size, one caller of it cancelled straight away, then the same key is
+    requested again: every uncancelled call is answered with its own key's outcome."""
+    from aiuti.asyncio import AsyncBackgroundBatcher
+
+    async def one(k):
+        loop = aio.get_running_loop()
+        log = []
+        b = AsyncBackgroundBatcher(_mk_batchfn(log, loop), max_batch_size=2, batch_timeout=10)
+        ta, tb, tv = [aio.ensure_future(b(x)) for x in ('a', 'b', 'v')]
+        await _turns(k)                   # the cancellation lands k loop turns after the burst
+        tv.cancel()
+        await _turns(3)
+        tv2, tw = aio.ensure_future(b('v')), aio.ensure_future(b('w'))
+        done, pending = await aio.wait([ta, tb, tv2, tw], timeout=500)
+        out = []
+        names = {ta: 'a', tb: 'b', tv2: 'v (second call)', tw: 'w'}
+        for t in pending:
+            out.append('C04: caller of %s was never answered (batches handed over: %r)' % (names[t], log))
+            t.cancel()
+        for t in done:
+            r = t.exception() or t.result()
+            if not (isinstance(r, tuple) and r[1] == names[t][0]):
+                out.append('C04: caller of %s got %r' % (names[t], r))
+        return ['(cancelled %d turns after the burst) %s' % (k, x) for x in out]
+
+    async def sc():
+        for k in range(0, 6):
+            out = await one(k)
+            if out:
+                return out
+        return []
+    return _run(sc)
+
+
+def c04_owner_cancelled_then_same_key_again_in_the_open_batch():
+    """C04/C09/C11: the owner of a queued request is cancelled while its batch is still being assembled and the
+    same key is requested again: the key is not queued twice, everybody else gets their own outcome."""
+    from aiuti.asyncio import AsyncBackgroundBatcher
+
+    async def sc():
+        loop = aio.get_running_loop()
+        log = []
+        b = AsyncBackgroundBatcher(_mk_batchfn(log, loop), max_batch_size=3, batch_timeout=10)
+        tk = aio.ensure_future(b('k'))
+        await _turns(4)                   # picked up by the collector, batch still open
+        tk.cancel()
+        await _turns(3)
+        tc, ta, td = [aio.ensure_future(b(x)) for x in ('k', 'a', 'd')]
+        done, pending = await aio.wait([tc, ta, td], timeout=500)
+        out = []
+        names = {tc: 'k', ta: 'a', td: 'd'}
+        for t in pending:
+            out.append('C04: caller of %s was never answered (batches: %r)' % (names[t], log))
+            t.cancel()
+        for t in done:
+            r = t.exception() or t.result()
+            if not (isinstance(r, tuple) and r[1] == names[t]):
+                out.append('C04/C09: caller of %s got %r (batches: %r)' % (names[t], r, log))
+        for when, keys in log:
+            if len(set(keys)) != len(keys):
+                out.append('C11: a batch carried a key twice: %r' % (keys,))
+        if not out:
+            # the batcher keeps serving the key afterwards (retention_timeout = 0: nothing is remembered)
+            n = len(log)
+            again = aio.ensure_future(b('k'))
+            done, pending = await aio.wait([again], timeout=500)
+            if pending or len(log) != n + 1:
+                out.append('C09/C11: after the cancelled owner\'s request was answered, a later call for the same key '
+                           '%s; %d new batches (the answered entry was never forgotten)'
+                           % ('was never answered' if pending else 'got %r' % (again.exception() or again.result(),),
+                              len(log) - n))
+        return out
+    return _run(sc)
+
+
+def c11_sharer_cancelled_while_pending():
+    """C11/C09: a caller that merely shares a pending request is cancelled: the original caller is unaffected and
+    the key is not queued again while the request is pending."""
+    from aiuti.asyncio import AsyncBackgroundBatcher
+
+    async def sc():
+        loop = aio.get_running_loop()
+        log = []
+        b = AsyncBackgroundBatcher(_mk_batchfn(log, loop), max_batch_size=2, batch_timeout=10)
+        owner = aio.ensure_future(b(1))
+        await _turns(3)
+        sharer = aio.ensure_future(b(1))
+        await _turns(3)
+        sharer.cancel()
+        await _turns(3)
+        late = aio.ensure_future(b(1))
+        other = aio.ensure_future(b(2))
+        done, pending = await aio.wait([owner, late, other], timeout=500)
+        out = []
+        for t in pending:
+            out.append('C11/C09: a caller was never answered after a sharer of key 1 was cancelled (batches %r)' % (log,))
+            t.cancel()
+        if owner in done and (owner.cancelled() or owner.exception()):
+            out.append('C09/C11: cancelling a caller that only SHARED the pending request ended the original caller '
+                       'with %r' % ('CancelledError' if owner.cancelled() else owner.exception()))
+        for when, keys in log:
+            if len(set(keys)) != len(keys):
+                out.append('C11: a batch carried a key twice: %r' % (keys,))
+        if owner in done and late in done and not owner.cancelled() and not late.cancelled() \
+                and not owner.exception() and not late.exception() and owner.result() != late.result():
+            out.append('C11: callers of the same pending key received different outcomes')
+        return out
+    return _run(sc)
+
+
+def c15_options_form_equals_direct_form_batcher():
+    """C15/C10/C11: @async_background_batcher(opt=...) behaves like AsyncBackgroundBatcher(func, opt=...):
+    concurrency limit, batch size after a timed wait, retention window."""
+    from aiuti.asyncio import AsyncBackgroundBatcher, async_background_batcher
+
+    async def sc():
+        loop = aio.get_running_loop()
+        out = []
+        for form in ('options', 'direct-decorator', 'class'):
+            # --- max_concurrent_batches=2, max_batch_size=4: 12 calls at once, executions parked on a gate
+            log, active, gate = [], [0, 0], aio.Event()
+            fn = _mk_batchfn(log, loop, gate=gate, active=active)
+            kw = dict(max_batch_size=4, max_concurrent_batches=2, batch_timeout=0.5)
+            call = (async_background_batcher(**kw)(fn) if form == 'options' else
+                    async_background_batcher(fn, **kw) if form == 'direct-decorator' else AsyncBackgroundBatcher(fn, **kw))
+            ts = [aio.ensure_future(call(i)) for i in range(12)]
+            await aio.sleep(5)
+            peak = active[1]
+            gate.set()
+            await aio.wait(ts, timeout=500)
+            if peak > 2:
+                out.append('C10/C15 (%s form): %d executions of the batch function in progress at once, '
+                           'max_concurrent_batches=2' % (form, peak))
+            if any(len(k) > 4 for _, k in log):
+                out.append('C10/C15 (%s form): a batch of %d items, max_batch_size=4' % (form, max(len(k) for _, k in log)))
+            # --- one request alone (collector sits in its timed wait), then a burst: max_batch_size still holds
+            log2 = []
+            fn2 = _mk_batchfn(log2, loop)
+            kw2 = dict(max_batch_size=3, batch_timeout=25)
+            call2 = (async_background_batcher(**kw2)(fn2) if form == 'options' else
+                     async_background_batcher(fn2, **kw2) if form == 'direct-decorator' else AsyncBackgroundBatcher(fn2, **kw2))
+            t0 = aio.ensure_future(call2(0))
+            await aio.sleep(1)
+            more = [aio.ensure_future(call2(i)) for i in range(1, 7)]
+            await aio.wait([t0] + more, timeout=500)
+            if any(len(k) > 3 for _, k in log2):
+                out.append('C10/C15 (%s form): after a timed wait the collector handed over %r, max_batch_size=3'
+                           % (form, [k for _, k in log2]))
+            # --- retention window: batch_timeout=1, retention_timeout=10; calls at t, t+5 (remembered), t+20 (new)
+            log3 = []
+            fn3 = _mk_batchfn(log3, loop)
+            kw3 = dict(batch_timeout=1, retention_timeout=10)
+            call3 = (async_background_batcher(**kw3)(fn3) if form == 'options' else
+                     async_background_batcher(fn3, **kw3) if form == 'direct-decorator' else AsyncBackgroundBatcher(fn3, **kw3))
+            r1 = await call3('x')
+            await aio.sleep(4)
+            r2 = await call3('x')
+            await aio.sleep(20)
+            r3 = await call3('x')
+            if r2 != r1 or len(log3) != 2 or r3 == r1:
+                out.append('C11/C15 (%s form): retention_timeout=10, batch_timeout=1: outcomes %r / %r (+4 s) / %r '
+                           '(+24 s), %d batches' % (form, r1, r2, r3, len(log3)))
+            # --- retention_timeout=0: nothing is remembered once answered
+            log4 = []
+            fn4 = _mk_batchfn(log4, loop)
+            kw4 = dict(batch_timeout=1, retention_timeout=0)
+            call4 = (async_background_batcher(**kw4)(fn4) if form == 'options' else
+                     async_background_batcher(fn4, **kw4) if form == 'direct-decorator' else AsyncBackgroundBatcher(fn4, **kw4))
+            q1 = await call4('y')
+            q2 = await call4('y')
+            if q1 == q2 or len(log4) != 2:
+                out.append('C11/C15 (%s form): retention_timeout=0 but a call right after the answer got the old '
+                           'outcome (%d batches)' % (form, len(log4)))
+            if out:
+                break
+        return out
+    return _run(sc)
+
+
+def c15_options_form_cache_default():
+    """C15/C14: one configured decorator object (options form, no cache given) reused on two functions: each
+    function has its own store."""
+    from aiuti.asyncio import threadsafe_async_cache
+
+    async def sc():
+        out = []
+        for deco in (threadsafe_async_cache(), threadsafe_async_cache(cache=None)):
+            @deco
+            async def f(x):
+                return ('f', x)
+
+            @deco
+            async def g(x):
+                return ('g', x)
+            rf, rg = await f(1), await g(1)
+            if rf != ('f', 1) or rg != ('g', 1):
+                out.append('C15/C14: two functions decorated with one options-form decorator share a store: '
+                           'f(1)=%r g(1)=%r' % (rf, rg))
+        store = {}
+        d2 = threadsafe_async_cache(cache=store)
+
+        @d2
+        async def h(x):
+            return ('h', x)
+        await h(1)
+        if len(store) != 1:
+            out.append('C15/C14: the cache given to the options form is not the store (entries: %d)' % len(store))
+        return out
+    return _run(sc)
+
+
 SCENARIOS = {
     'C01': [c01_owner_cancelled_mid_invocation, c01_keyword_order, c14_recheck_under_the_lock],
-    'C14': [c01_keyword_order, c14_hash_equal_arguments, c14_recheck_under_the_lock],
+    'C14': [c01_keyword_order, c14_hash_equal_arguments, c14_recheck_under_the_lock, c15_options_form_cache_default],
     'C05': [c05_closed_computing_loop_is_taken_over, c05_stopped_computing_loop_recovery,
             c06_cancelled_waiter_ends_at_once],
     'C06': [c06_own_cancellation_together_with_a_foreign_one, c06_cancelled_waiter_ends_at_once,
             c05_stopped_computing_loop_recovery],
+    'C03': [c03_foreign_thread_submission_reaches_an_idle_loop],
+    'C04': [c04_burst_with_a_cancelled_caller, c04_owner_cancelled_then_same_key_again_in_the_open_batch],
+    'C09': [c04_owner_cancelled_then_same_key_again_in_the_open_batch, c11_sharer_cancelled_while_pending],
+    'C10': [c15_options_form_equals_direct_form_batcher],
+    'C11': [c11_sharer_cancelled_while_pending, c04_owner_cancelled_then_same_key_again_in_the_open_batch,
+            c15_options_form_equals_direct_form_batcher],
+    'C15': [c15_options_form_equals_direct_form_batcher, c15_options_form_cache_default],
+    'C08': [c08_wait_from_anywhere_without_flush],
 }
 
 
